@@ -339,6 +339,11 @@ def gen_nexus(rng, size, with_chars=None, like=None):
                     refs.append(render_label(rng, pool[j], have_taxa or not want_chars))
             internals = [render_label(rng, x, False) for x in rng.sample(INTERNAL, len(INTERNAL))]
             weight = rng.choice(WEIGHTS) if rng.random() < 0.3 else None
+            if i > 0 and rng.random() < 0.2:
+                # a statement that is not TREE between two TREE statements (an unrecognised command): the block loop, not the
+                # tree-after-tree loop, meets the next TREE token; comments in front of it belong to no tree on any route
+                text += "  %s%s;\n  %s" % (maybe_comments(rng, 0.3), rng.choice(["FOO x", "PROPERTIES fuzzy=no", "UTREE"]),
+                                            rng.choice(["", "", comment(rng), comment(rng) + " " + comment(rng)]))
             text += "  " + maybe_comments(rng, cfg["p_comment"] * 0.6)
             name = rng.choice(["t%d" % i, "tree_%d" % i, "'my tree %d'" % i, "STATE_%d" % (i * 100), "con 50 majrule".replace(" ", "_")])
             star = "* " if rng.random() < 0.1 else ""
@@ -351,6 +356,108 @@ def gen_nexus(rng, size, with_chars=None, like=None):
         text += maybe_comments(rng, 0.5) + rng.choice(["", "\n", " "])
     if rng.random() < 0.15:
         text = text.rstrip("\n")
+    return {"schema": "nexus", "text": text, "opts": opts, "info": info}
+
+
+HYPHEN_POOL = ["Pan-troglodytes", "n-1", "a", "b", "c", "Homo-sapiens", "x-", "d", "e", "t-2-3"]
+# every value is a dyadic rational (exact in binary64, sums included: the array route adds the lengths of edges that induce one
+# split), written with a hyphen wherever a number can carry one
+HYPHEN_LENGTHS = ["-0.125", "5e-1", "2.5E-1", "-1", "0.5", "-2.5e-1", "3", "1.25e-1", "-7.5E-1", "0.25", "-3", "6.25e-2"]
+HYPHEN_COMMENTS = ["[&lnP=-12.5]", "[a-b]", "[-]", "[&rate=1e-3]", "[&range={-1,2}]", "[pre - post]"]
+
+
+def charset_positions(rng, nchar):
+    """one position list of a CHARSET statement: single positions, ranges, ranges with a step, `.` for the last position"""
+    parts = []
+    for _ in range(rng.randint(1, 3)):
+        a = rng.randint(1, nchar)
+        r = rng.random()
+        if r < 0.3:
+            parts.append(str(a))
+        elif r < 0.6:
+            parts.append("%d-%d" % (a, rng.randint(a, nchar)))
+        elif r < 0.8:
+            parts.append("%d-%d\\%d" % (a, rng.randint(a, nchar), rng.choice([2, 3])))
+        elif r < 0.9:
+            parts.append("%d - %d" % (a, rng.randint(a, nchar)))
+        else:
+            parts.append("%d-." % a)
+    return " ".join(parts)
+
+
+def gen_charset_doc(rng):
+    """a character block and a SETS block with CHARSET statements (ranges, steps, single positions, `ALL` first / last / in the
+    middle / absent) in front of one or more TREES blocks whose trees carry '-' everywhere an unquoted hyphen can stand:
+    negative lengths, exponents, labels, comments.  The routes that parse the SETS block share ONE tokenizer with the trees that
+    follow; the routes that skip it never enter the position-list parser."""
+    opts = {}
+    if rng.random() < 0.45:
+        opts["suppress_edge_lengths"] = True
+    if rng.random() < 0.3:
+        opts["rooting"] = rng.choice(["default-unrooted", "default-rooted", "force-rooted"])
+    if rng.random() < 0.2:
+        opts["suppress_internal_node_taxa"] = False
+    if rng.random() < 0.2:
+        opts["extract_comment_metadata"] = False
+    UNDERSCORES_ARE_SPACES[0] = True
+    pool = rng.sample(HYPHEN_POOL, rng.randint(3, 7))
+    nchar = rng.randint(3, 12)
+    dtype = rng.choice(["DNA", "STANDARD"])
+    syms = DNA if dtype == "DNA" else "01"
+    text = "#NEXUS\n"
+    text += "BEGIN TAXA;\n  DIMENSIONS NTAX=%d;\n  TAXLABELS %s;\nEND;\n" % (len(pool), " ".join(pool))
+    text += "BEGIN CHARACTERS;\n  DIMENSIONS NCHAR=%d;\n  FORMAT DATATYPE=%s MISSING=? GAP=-;\n  MATRIX\n" % (nchar, dtype)
+    for lab in pool:
+        text += "    %s  %s\n" % (lab, "".join(rng.choice(syms + ("-?" if rng.random() < 0.15 else "")) for _ in range(nchar)))
+    text += "  ;\nEND;\n"
+    nsets = rng.randint(1, 4)
+    where_all = rng.choice(["last", "last", "first", "middle", "none", "only"])
+    stmts = ["  CHARSET cs%d = %s;" % (i, charset_positions(rng, nchar)) for i in range(nsets)]
+    allstmt = "  %s whole = %s;" % (kw(rng, "charset"), rng.choice(["ALL", "all", "All"]))
+    if where_all == "last":
+        stmts.append(allstmt)
+    elif where_all == "first":
+        stmts.insert(0, allstmt)
+    elif where_all == "middle":
+        stmts.insert(rng.randint(1, len(stmts)), allstmt)
+    elif where_all == "only":
+        stmts = [allstmt]
+    block = rng.choice(["SETS", "SETS", "sets", "ASSUMPTIONS"])
+    text += "BEGIN %s;\n%s\n%s;\n" % (block, "\n".join(stmts), rng.choice(["END", "ENDBLOCK"]))
+    if rng.random() < 0.3:
+        text += unknown_block(rng)
+
+    counter = [0]
+
+    def node(labels, depth):
+        if len(labels) == 1:
+            out = labels[0]
+        else:
+            k = rng.randint(1, len(labels) - 1)
+            parts = [labels[:k], labels[k:]]
+            if len(parts[1]) > 1 and rng.random() < 0.3:
+                j = rng.randint(1, len(parts[1]) - 1)
+                parts = [parts[0], parts[1][:j], parts[1][j:]]
+            out = "(" + ",".join(node(p, depth + 1) for p in parts) + ")"
+            if rng.random() < 0.3:
+                counter[0] += 1          # internal labels are unique per tree: they become taxa when those are not suppressed
+                out += rng.choice(["i-%d", "anc%d", "9%d"]) % counter[0]
+        if rng.random() < 0.25:
+            out += rng.choice(HYPHEN_COMMENTS)
+        if depth > 0 and rng.random() < 0.85:
+            out += ":" + rng.choice(HYPHEN_LENGTHS)
+        return out
+    for b in range(rng.choice([1, 1, 2])):
+        text += "BEGIN TREES;\n"
+        for i in range(rng.randint(1, 3)):
+            labels = rng.sample(pool, rng.randint(2, len(pool)))
+            counter[0] = 0
+            pre = rng.choice(["", "", "[&U] ", "[&R] ", rng.choice(HYPHEN_COMMENTS) + " "])
+            text += "  TREE t%d-%d = %s%s;\n" % (b, i, pre, node(labels, 0)) if rng.random() < 0.3 else \
+                    "  TREE t%d_%d = %s%s;\n" % (b, i, pre, node(labels, 0))
+        text += "END;\n"
+    info = {"taxa_block": True, "chars": dtype, "pool": list(pool), "taxa_title": None, "opts": opts,
+            "charset_all": where_all}
     return {"schema": "nexus", "text": text, "opts": opts, "info": info}
 
 
